@@ -150,30 +150,35 @@ qsize(void)
 }
 
 static IMB_STATUS pre_status[2 * IMB_MAX_BURST_SIZE];
-/* C14: caller-owned descriptor fields must be identical when the call returns */
-static IMB_JOB pre_jobs[2 * IMB_MAX_BURST_SIZE];
+/* C14: caller-owned descriptor fields must be identical when the call returns.  One ARBITRARY slot k0 is snapshotted
+ * (universally quantified through the nondeterministic index), which is as general as snapshotting all of them. */
+static IMB_JOB pre_job;
+static unsigned k0;
 static void
 snap(void)
 {
-        for (int k = 0; k < N; k++)
-                pre_jobs[k] = st.jobs[k];
+#ifdef CHECK_DESC
+        k0 = nondet_uint();
+        __CPROVER_assume(k0 < (unsigned) N);
+        pre_job = st.jobs[k0];
+#endif
 }
-#define SAMEF(f) assert(pre_jobs[k].f == st.jobs[k].f)
+#define SAMEF(f) assert(pre_job.f == st.jobs[k0].f)
 static void
 check_desc(void)
 {
-        for (int k = 0; k < N; k++) {
-                SAMEF(enc_keys); SAMEF(dec_keys); SAMEF(key_len_in_bytes); SAMEF(src); SAMEF(dst);
-                SAMEF(cipher_start_src_offset_in_bytes); SAMEF(msg_len_to_cipher_in_bytes);
-                SAMEF(hash_start_src_offset_in_bytes); SAMEF(msg_len_to_hash_in_bytes); SAMEF(iv); SAMEF(iv_len_in_bytes);
-                SAMEF(auth_tag_output); SAMEF(auth_tag_output_len_in_bytes); SAMEF(u.XCBC._k1_expanded); SAMEF(u.XCBC._k2);
-                SAMEF(u.XCBC._k3); SAMEF(cipher_mode); SAMEF(cipher_direction); SAMEF(hash_alg); SAMEF(chain_order);
-                SAMEF(user_data); SAMEF(user_data2); SAMEF(cipher_func); SAMEF(hash_func); SAMEF(sgl_state);
-                SAMEF(cipher_fields.CBCS.next_iv); SAMEF(suite_id[0]); SAMEF(suite_id[1]); SAMEF(session_id);
-                /* a status is only ever moved to a final value by the ring code itself */
-                assert(st.jobs[k].status == pre_jobs[k].status || st.jobs[k].status == IMB_STATUS_COMPLETED ||
-                       st.jobs[k].status == IMB_STATUS_INVALID_ARGS || st.jobs[k].status == IMB_STATUS_BEING_PROCESSED);
-        }
+#ifdef CHECK_DESC
+        SAMEF(enc_keys); SAMEF(dec_keys); SAMEF(key_len_in_bytes); SAMEF(src); SAMEF(dst);
+        SAMEF(cipher_start_src_offset_in_bytes); SAMEF(msg_len_to_cipher_in_bytes);
+        SAMEF(hash_start_src_offset_in_bytes); SAMEF(msg_len_to_hash_in_bytes); SAMEF(iv); SAMEF(iv_len_in_bytes);
+        SAMEF(auth_tag_output); SAMEF(auth_tag_output_len_in_bytes); SAMEF(u.XCBC._k1_expanded); SAMEF(u.XCBC._k2);
+        SAMEF(u.XCBC._k3); SAMEF(cipher_mode); SAMEF(cipher_direction); SAMEF(hash_alg); SAMEF(chain_order);
+        SAMEF(user_data); SAMEF(user_data2); SAMEF(cipher_func); SAMEF(hash_func); SAMEF(sgl_state);
+        SAMEF(cipher_fields.CBCS.next_iv); SAMEF(suite_id[0]); SAMEF(suite_id[1]); SAMEF(session_id);
+        /* a status is only ever moved to a final value by the ring code itself */
+        assert(st.jobs[k0].status == pre_job.status || st.jobs[k0].status == IMB_STATUS_COMPLETED ||
+               st.jobs[k0].status == IMB_STATUS_INVALID_ARGS || st.jobs[k0].status == IMB_STATUS_BEING_PROCESSED);
+#endif
 }
 
 int
